@@ -5,7 +5,7 @@ MAXW = (1 << 64) - 1
 
 class Case:
     def __init__(self, cid, kind, vals=None, start=0, stop=0, script=None, hint="inexact", adapt="none",
-                 threads=None, owner="drop", sched=None, frozen=None, iters=1, mode="release", clonepanic=None, droppanic=None, zst=False, tags=None, pod=False, spare=0, inpanic=None, clonepoint=False, rawskip=False, clonefrom=False, relocate=None, zstiter=False):
+                 threads=None, owner="drop", sched=None, frozen=None, iters=1, mode="release", clonepanic=None, droppanic=None, zst=False, tags=None, pod=False, spare=0, inpanic=None, clonepoint=False, rawskip=False, clonefrom=False, relocate=None, zstiter=False, reenter=None):
         self.id = cid
         self.kind = kind            # slice vecref arrref vec array range iter iterref
         self.vals = list(vals or [])
@@ -27,6 +27,7 @@ class Case:
         self.clonefrom = clonefrom      # `clone j` = `Clone::clone_from` onto an iterator that is ahead of the source
         self.relocate = relocate        # single-thread cases: the iterator value is moved to another address before thread 0's k-th operation
         self.zstiter = zstiter          # kind iter: the wrapped iterator is a zero-sized *type* (its state lives outside the value)
+        self.reenter = reenter          # kinds iter / iterref: the k-th call of the wrapped `next()` queries the concurrent iterator around it
         self.rawskip = rawskip          # `skip` = the public `AtomicIter::early_exit` instead of `skip_to_end`
         self.clonepoint = clonepoint    # `Clone::clone` of an element is a scheduling point (impl-only cases)
         self.inpanic = list(inpanic or [])   # threads whose ops run inside a destructor during an unrelated unwinding
@@ -125,6 +126,8 @@ class Case:
             L.append("clonepoint")
         if self.rawskip:
             L.append("rawskip")
+        if self.reenter is not None:
+            L.append("reenter %d" % self.reenter)
         if self.zstiter:
             L.append("zstiter")
         if self.relocate is not None:
@@ -203,6 +206,8 @@ def parse_cases(text):
             cur.clonepoint = True
         elif toks[0] == "rawskip":
             cur.rawskip = True
+        elif toks[0] == "reenter":
+            cur.reenter = int(toks[1])
         elif toks[0] == "zstiter":
             cur.zstiter = True
         elif toks[0] == "relocate":
